@@ -105,6 +105,7 @@ type Contract struct {
 	Props    []string
 	Trusted  string // non-empty: contract is assumed, reason
 	ReplayIn []ReplayInput
+	Targets  []string // interface-method contracts: implementers to verify (others stay assumed)
 	ReplayBd []*SExpr            // extra constraints used only to obtain small counterexamples for replay
 	Dispatch map[string][]string // interface type name -> allowed dynamic types (proved at each invoke)
 }
@@ -437,6 +438,10 @@ func (db *SpecDB) loadText(path, text, pkgHint string) error {
 				cur.Opaque = true
 			case "replay":
 				cur.Replay = strings.TrimSpace(rest)
+			case "targets":
+				for _, t := range strings.Split(rest, ",") {
+					cur.Targets = append(cur.Targets, strings.TrimSpace(t))
+				}
 			case "replay-bound":
 				e, err := parseSpecExpr(rest)
 				if err != nil {
